@@ -72,6 +72,8 @@ def requested_demand(wn, junction, t):
     for d in junction.demand_timeseries_list:
         base = d.base_value
         pat = d.pattern
+        if pat is None and wn.options.hydraulic.pattern is not None and str(wn.options.hydraulic.pattern) in wn.pattern_name_list:
+            pat = wn.get_pattern(str(wn.options.hydraulic.pattern))      # the model's default pattern
         if pat is None:
             m = 1.0
         else:
